@@ -10,7 +10,9 @@ use serde_json::{json, Value};
 
 pub const X_KINDS: &[&str] = &["absent", "file", "emptydir", "dir+index", "dir+index-is-dir", "link->file", "link->dir+index", "dangling-link"];
 pub const H_KINDS: &[&str] = &["absent", "file", "dir", "link->file"];
-pub const SPELLINGS: &[&str] = &["/{x}", "/{x}/", "/{x}.html", "/{x}/index.html", "/{x}?q=1", "/{x}#f", "/{x}?q=1#f", "/{x}/?q", "//{x}", "/{x}//", "/{X}", "/{x}.htm", "/{x}/index", "/{x}.html?q#f"];
+pub const SPELLINGS: &[&str] = &["/{x}", "/{x}/", "/{x}.html", "/{x}/index.html", "/{x}?q=1", "/{x}#f", "/{x}?q=1#f", "/{x}/?q", "//{x}", "/{x}//", "/{X}", "/{x}.htm", "/{x}/index", "/{x}.html?q#f",
+    // query strings and fragments whose own text looks like path syntax
+    "/{x}?r=/", "/{x}#/", "/{x}?a=/b/", "/{x}?p=.html", "/{x}#index.html", "/{x}?d=/../y", "/{x}/?r=/index.html", "/{x}?", "/{x}#"];
 
 /// base-name shapes for the competition: plain, dotted (version-like), carrying an
 /// extension of its own, non-ASCII
@@ -399,5 +401,5 @@ pub fn replay(v: &Value) -> Vec<Failure> {
     }
     std::env::set_current_dir("/").unwrap();
     let _ = std::fs::remove_dir_all(&root);
-    fails.into_iter().map(|(signature, detail)| Failure { signature, case: v.clone(), detail }).collect()
+    fails.into_iter().map(|(signature, detail)| Failure { signature, case: v.clone(), detail, hash: 0 }).collect()
 }
